@@ -547,6 +547,58 @@ def run_valid(case, ctx):
     run_case(case, ctx)
 
 
+# ------------------------------------------------------------------ the same departures, far down long tables
+def big_spec(K):
+    """Two stars over [0,K/2) and [K/2,K): K leaves, 2K edges, K sites with one mutation each (every second one with
+    a parent mutation above it at the root), K/8 migrations, K/4 individuals: every table is tens of thousands of
+    rows long, so a departure planted at row a sits beyond 2^15 / 2^16."""
+    h = float(K // 2)
+    nodes = [[1, 0.0, u % 3, (u // 2 if u % 4 < 2 and u // 2 < K // 4 else -1), ""] for u in range(K)]
+    nodes += [[0, 1.0, 0, -1, ""], [0, 2.0, 1, -1, ""]]
+    edges = [[0.0, h, K, u, ""] for u in range(K)] + [[h, float(K), K + 1, u, ""] for u in range(K)]
+    sites = [[float(j), "A", ""] for j in range(K)]
+    muts = []
+    for j in range(K):
+        if j % 2 == 0:
+            muts.append([j, j, "T", -1, None, ""])
+        else:
+            top = K if j < h else K + 1
+            muts.append([j, top, "G", -1, None, ""])
+            muts.append([j, j, "T", len(muts) - 1, None, ""])
+    migs = [[0.0, h, u, u % 3, (u + 1) % 3, 0.5, ""] for u in range(0, K, 8)]
+    inds = [[0, [], [], ""] for _ in range(K // 4)]
+    return dict(L=float(K), nodes=nodes, edges=edges, sites=sites, mutations=muts, migrations=migs, individuals=inds,
+                populations=[[""], [""], [""]])
+
+
+def enum_big(tier, seed):
+    K = 70000
+    rows = [K - 1, 65536 + 1] if tier == "quick" else [K - 1, 65536 + 1, 65535, 32768 + 1]
+    for name, _, _ in OPS:
+        bs = range(0, 64) if tier != "quick" else [(seed * 7 + 11 * k) % 64 for k in range(8)]
+        for a in rows:
+            for b in sorted(set(bs)):
+                yield dict(K=K, op=name, a=a, b=b)
+    yield dict(K=K, op=None, a=0, b=0)
+
+
+def run_big(case, ctx):
+    spec = big_spec(case["K"])
+    ops = []
+    if case["op"] is not None:
+        try:
+            ok = OPMAP[case["op"]](spec, case["a"], case["b"])
+        except (IndexError, TypeError, ValueError, KeyError):
+            ok = False
+        if not ok:
+            ctx.label("not_applied")
+            return
+        ops = [[case["op"], case["b"]]]
+    idx = spec.pop("_index", None)
+    run_case(dict(spec=spec, index=idx, ops=ops, via_file=(case["b"] % 4 == 0)), ctx)
+    ctx.nt(True)
+
+
 SUBCHECKS = [
     SubCheck("C02.perturbed", run_case, strategy=perturbed_case, quick=6000, thorough=300000,
              rule="INVALID by exactly one reason through a single boundary operator, or VALID with >=2 trees",
@@ -556,4 +608,7 @@ SUBCHECKS = [
              rule="same as C02.perturbed, executed on the ASan+UBSan build so that a rejection path that reads out of bounds dies visibly"),
     SubCheck("C02.valid_accepted", run_valid, strategy=valid_case, quick=1500, thorough=50000,
              rule="valid collection with >=2 trees", floors={"multi_tree": 0.2}),
+    SubCheck("C02.large_tables", run_big, enumerate=enum_big, quick=1, thorough=1, shards=16,
+             rule="the operators of C02.perturbed applied at rows beyond 2^16 of a collection with 70000 "
+             "leaves, 2K edges, K sites, 1.5K mutations; one unperturbed case"),
 ]
